@@ -144,6 +144,15 @@ def ok_or_else (o : Option α) (f : Unit → ε) : Except ε α :=
   | some a => .ok a
   | none => .error (f ())
 
+/-- `iter.collect::<Result<Vec<_>, _>>()`: the first error (the results after it are not looked at), or all the values -/
+def collect_results : List (Except ε α) → Except ε (List α)
+  | [] => .ok []
+  | .error e :: _ => .error e
+  | .ok a :: rest =>
+    match collect_results rest with
+    | .ok as => .ok (a :: as)
+    | .error e => .error e
+
 /-- `str::as_bytes` -/
 def str_as_bytes (s : Str) : Bytes := Kestrel.Keyring.utf8 s
 
